@@ -247,3 +247,139 @@ func init() {
 		c.R.NotDecide("gradients of W, B, x: compositional (C01, C02, C07); the weight gradient inherits known finding D2 (Broadcast backward averages)")
 	}, 10))
 }
+
+// RunData runs the labelled-element engine on the selected operations.
+func RunData(c *Ctx, want func(string) bool, keep func(rule, construct string) bool) *engine.OpEngine {
+	e := engine.NewOpEngine(c.P, c.A)
+	e.SetDataMode(true)
+	b := engine.QuickDataBounds()
+	if c.Tier == "thorough" {
+		b = engine.ThoroughDataBounds()
+	}
+	calls := e.DataInstances(want, b)
+	for i, call := range calls {
+		e.RunDataInstance(call)
+		if i%211 == 0 {
+			c.R.Sample(map[string]string{"labelled_instance": call.Label})
+		}
+	}
+	fileOps(c, e, OpFilter{Keep: keep})
+	c.R.Count("data.instances", len(calls))
+	c.R.Count("data.element_comparisons", e.ElemChecks)
+	for fn := range e.Funcs {
+		c.R.Func(fn)
+	}
+	return e
+}
+
+func inSet(names ...string) func(string) bool {
+	m := map[string]bool{}
+	for _, n := range names {
+		m[n] = true
+	}
+	return func(n string) bool { return m[n] }
+}
+
+func isShapeRule(rule string) bool {
+	return rule == "A4.pre" || rule == "A4.shape" || rule == "S6.panic" || rule == "S6.hang" || rule == "S1a.gctx"
+}
+
+func dataKeep(rule, construct string) bool {
+	return rule == "D.elements" || rule == "S6.panic" || rule == "S6.hang" || rule == "A4.pre" || rule == "A4.shape"
+}
+
+const dataRule = "D.elements: labelled-element interpretation — shapes concrete and small (sizes 1..3, ranks to the tier bound plus a few rank-4/5 shapes), every operand element a distinct symbol; the WHOLE implementation incl. the nested-[]any data layer (recursive fills, element generators, copiers, kernels) is interpreted and the element found at every result position must have the normal form of the specification's element at that position. Universal in element values, bounded in shapes"
+
+func valueOps(c *Ctx, id string, methods []string, extra func(c *Ctx)) {
+	c.R.Rule("A4.pre/A4.shape: the public method (validators, dims helpers) interpreted with symbolic sizes and arguments returns an error exactly when the documented precondition fails and otherwise the defined shape (FM-decided, witness on disagreement)")
+	c.R.Rule(dataRule)
+	set := inSet(methods...)
+	RunOps(c, OpFilter{Methods: methods, Keep: func(rule, construct string) bool { return isShapeRule(rule) }})
+	RunData(c, set, dataKeep)
+	if extra != nil {
+		extra(c)
+	}
+	c.R.Min("data.element_comparisons", 200)
+	c.R.NotDecide("shapes beyond the enumerated bound (the odometer/carry logic is exercised on every enumerated shape, not proven for all sizes); floating-point rounding")
+	addOpsAssumptions(c)
+}
+
+func init() {
+	register("C03", "element-wise operations and implicit broadcasting", func(c *Ctx) {
+		c.R.Rule("comparison kernels are evaluated under the five order classes of a-b (far above, within tolerance above, tie, within tolerance below, far below; Eq/Ne/Equals only far/tie as the property states): results must be exactly the defined 0/1")
+		c.R.Rule("S1e: implicit expansion goes through the public Broadcast on both operands before the kernel runs (edge-routing rule of the operation engine), so the outcome equals broadcasting explicitly first")
+		valueOps(c, "C03", []string{"Scale", "Pow", "Exp", "Log", "Sin", "Cos", "Tan", "Sinh", "Cosh", "Tanh", "Add", "Sub", "Mul", "Div", "ElMax", "ElMin", "Eq", "Ne", "Gt", "Ge", "Lt", "Le", "Equals", "Broadcast"}, nil)
+	})
+	register("C04", "MatMul, Dot, Transpose", func(c *Ctx) {
+		valueOps(c, "C04", []string{"MatMul", "Dot", "Transpose"}, nil)
+	})
+	register("C05", "reductions", func(c *Ctx) {
+		c.R.Rule("whole-tensor Sum/Max/Min/Avg/Mean/Var/Std: the returned scalar expression equals the definition (unbiased variance, 0 for one element) on every enumerated shape")
+		valueOps(c, "C05", []string{"SumAlong", "MaxAlong", "MinAlong", "AvgAlong", "VarAlong", "StdAlong", "MeanAlong", "Sum", "Max", "Min", "Avg", "Mean", "Var", "Std"}, nil)
+		c.R.NotDecide("numerical stability of the variance formula (algebraically equal one-pass rewrites are not distinguished)")
+	})
+	register("C06", "indexing, reshaping, construction", func(c *Ctx) {
+		c.R.Rule("constructors: Full/Zeros/Ones/Eye/TensorOf element by element; TensorOf on rectangular nested data of depth 0..4 and on ragged/empty variants (must be an error, never a panic); At on every valid and on out-of-range / wrong-arity indexes; NElems = product of Shape")
+		valueOps(c, "C06", []string{"At", "Slice", "Patch", "Concat", "Reshape", "Flatten", "Squeeze", "UnSqueeze", "Broadcast", "Transpose", "Full", "Zeros", "Ones", "Eye", "TensorOf", "NElems", "Shape"}, nil)
+	})
+	register("C09", "every public call is total", func(c *Ctx) {
+		c.R.Rule("A4.pre / S6.panic over EVERY public entry point: each Tensor method with symbolic sizes and integer arguments (error iff precondition violated, defined shape otherwise, no reachable panic incl. index/slice bounds, nil dereference, failed type assertion, explicit panic); package tensor constructors for every configuration case (nil, CPU, unset/unknown device) and symbolic dims incl. nil slices; TensorOf on rectangular and ragged data; Concat on nil/short/nil-containing lists; BackPropagate(nil)")
+		c.R.Rule("component entry points: constructors with nil/invalid configs, Forward/Compute/Accumulate/Update/Init with nil tensors, wrong ranks, mismatched sizes, missing inputs, unset SeedFunc: an error, never a panic")
+		RunOps(c, OpFilter{Keep: func(rule, construct string) bool { return isShapeRule(rule) }})
+		RunData(c, inSet("At", "TensorOf", "Full", "Zeros", "Ones", "Eye", "Concat", "Slice", "Patch"), func(rule, construct string) bool {
+			return rule == "S6.panic" || rule == "S6.hang" || rule == "A4.pre"
+		})
+		e := engine.NewOpEngine(c.P, c.A)
+		e.RunTensorEntryChecks(3)
+		e.RunLossChecks()
+		e.RunActivationChecks(2)
+		e.RunFCChecks()
+		e.RunSGDChecks(1)
+		e.RunAccuracyChecks()
+		e.RunInputLayerChecks()
+		e.RunInitializerChecks(2)
+		fileOps(c, e, OpFilter{Keep: func(rule, construct string) bool {
+			return rule == "A4.pre" || rule == "A4.shape" || strings.HasPrefix(rule, "S6.") || rule == "S7.no-store-on-error"
+		}})
+		c.R.Count("entry.abstract_paths", e.Paths)
+		c.R.Min("entry.abstract_paths", 300)
+		for fn := range e.Funcs {
+			c.R.Func(fn)
+		}
+		c.R.NotDecide("termination beyond the interpreter's step budget; typed-nil *CPUTensor inside a non-nil interface; integer overflow of element counts")
+		addOpsAssumptions(c)
+	})
+	register("C10", "tensors are immutable values decoupled from caller-owned slices", func(c *Ctx) {
+		c.R.Rule("S4 write provenance: every Store/MapUpdate/copy/append in the library writes memory allocated by the same call (fresh, or parameter-derived with the obligation discharged at every caller); only the back-propagation walk, ResetGradContext, Accuracy.Accumulate and SGD.Update write non-fresh memory")
+		c.R.Rule("S5 retention: no slice/any parameter of a public entry point is stored, captured by an escaping closure, or returned; public functions returning slices return fresh memory")
+		c.R.Rule("S3 ownership of CPUTensor/GradContext fields; C10.mutation: in every labelled-element and operation-engine run, no store hits a cell that existed before the call (operands, their dims and data rows, caller slices)")
+		rules.S4Provenance(c.P, c.A, c.R)
+		rules.S5Retention(c.P, c.A, c.R)
+		rules.S3Ownership(c.P, c.A, c.R)
+		RunData(c, func(string) bool { return true }, func(rule, construct string) bool { return rule == "C10.mutation" })
+		addOpsAssumptions(c)
+	})
+	register("C20", "concurrent forward computation is race-free and deterministic", func(c *Ctx) {
+		c.R.Rule("effect argument: S4 (every write of the forward path targets memory allocated by that call) + S8 (no mutable package state, no private/unlocked random source) + S3 (no forward operation writes a field of an existing tensor or gradient context; the walk tests `tracked` before any write): concurrent forward calls only READ shared tensors, which cannot race, and each result depends only on its inputs")
+		rules.S8SharedState(c.P, c.A, c.R)
+		rules.S4Provenance(c.P, c.A, c.R)
+		rules.S3Ownership(c.P, c.A, c.R)
+		rules.S2Walk(c.P, c.A, c.R)
+		e := engine.NewOpEngine(c.P, c.A)
+		e.RunRandomDrawChecks()
+		fileOps(c, e, OpFilter{Keep: func(rule, construct string) bool { return rule == "S8.rng" || rule == "interp" }})
+		c.R.Assume("gonum's distuv draws from golang.org/x/exp/rand's global source when Src is nil, and that source is a LockedSource")
+		c.R.NotDecide("calls outside the proviso (e.g. two goroutines passing the same FCConfig map to NewFC)")
+		addOpsAssumptions(c)
+	})
+	register("C18", "initializers and random constructors honour shape, support and scale", componentCheck(func(e *engine.OpEngine, c *Ctx) {
+		c.R.Rule("S9b plumbing: interpreting each initializer's constructor and Init with symbolic configs, the tensor is built by the matching random/constant constructor with exactly the requested shape, tracked, and with parameters of the defined normal form: Full value; Uniform [lower, upper) (nil config [-0.05,0.05)); Normal (mean, σ) (nil (0,0.05)); He/Xavier uniform ±sqrt(6/fanIn), ±sqrt(6/(fanIn+fanOut)); He/Xavier normal mean 0, σ sqrt(2/fanIn), sqrt(2/(fanIn+fanOut))")
+		c.R.Rule("S9c draws: RandU/RandN interpreted completely on small shapes: every element is a distinct fresh draw, exactly one draw per element, from Uniform{Min:l,Max:u} / Normal{Mu:mean,Sigma:σ}; S8.rng: no explicit Src, no private generator")
+		c.R.Rule("A4.pre: invalid configurations and non-positive shapes are rejected")
+		e.RunInitializerChecks(3)
+		e.RunRandomDrawChecks()
+		rules.S8SharedState(c.P, c.A, c.R)
+		c.R.Assume("gonum's Uniform.Rand returns values in [Min,Max) and Normal.Rand is N(Mu,Sigma); both use a locked global source when Src is nil")
+		c.R.NotDecide("convergence of sample moments / independence (statistical)")
+	}, 50))
+}
